@@ -57,6 +57,7 @@ def _mk(cap, opts):
             kw['imf_opts'] = {'env_step_size': 0.5, 'stop_method': 'rilling'}
             kw['envelope_opts'] = {'interp_method': 'pchip'}
             kw['extrema_opts'] = {'pad_width': 3}
+            c.ghost['caller_opts'] = {k_: dict(v_) for k_, v_ in kw.items() if k_.endswith('_opts')}
         return (X,), kw
     return mk
 
@@ -178,6 +179,10 @@ def replay(w):
     if o:
         kw = {'imf_opts': {'stop_method': o.get('rule', 'sd'), 'env_step_size': o.get('step', 1), 'max_iters': o.get('max_iters', 1000)},
               'envelope_opts': {'interp_method': o.get('interp', 'splrep')}, 'extrema_opts': {'pad_width': o.get('pad', 2)}}
+        if 'sd_thresh' in o:
+            kw['imf_opts']['sd_thresh'] = o['sd_thresh']
+        if 'rilling_thresh' in o:
+            kw['imf_opts']['rilling_thresh'] = tuple(o['rilling_thresh'])
     thr = w.get('sift_thresh', 1e-8)
     with warnings.catch_warnings():
         warnings.simplefilter('ignore')
@@ -227,6 +232,20 @@ def refute(tier, seed, emit):
         ok, msg = replay(w)
         if ok:
             emit.violation('complete-decomposition' if 'sum back' in msg else 'final-component-non-oscillatory' if 'oscillates' in msg else 'sift-raises', w, msg)
+        if emit.full:
+            return
+    # stopping rules that cannot be met within the iteration limit: the documented convergence error, or a complete decomposition - never a silent partial one
+    ntight = 60 if tier == 'quick' else 600
+    emit.scope('%d seeded noise signals (length 32..128) x {sd with sd_thresh 1e-4 / 1e-6, rilling with thresholds (1e-3, 1e-2, 1e-3)} x max_iters {5, 50}: the sift raises the convergence error or returns a complete decomposition' % ntight)
+    for q in range(ntight):
+        xq = r.randn(int(r.randint(32, 129)))
+        o = [{'rule': 'sd', 'sd_thresh': 1e-4}, {'rule': 'sd', 'sd_thresh': 1e-6}, {'rule': 'rilling', 'rilling_thresh': [1e-3, 1e-2, 1e-3]}][q % 3]
+        o = dict(o, max_iters=[5, 50][(q // 3) % 2])
+        emit.case(('tight', q), contract='sift')
+        w = {'kind': 'sift', 'x': xq.tolist(), 'opts': o}
+        ok, msg = replay(w)
+        if ok:
+            emit.violation(('complete-decomposition' if 'sum back' in msg else 'final-component-non-oscillatory' if 'oscillates' in msg else 'sift-raises') + ':iteration-limit-reached', w, msg)
         if emit.full:
             return
     # integer-typed recordings (raw ADC counts, integer random walks) and single precision: still a complete decomposition
